@@ -475,6 +475,50 @@ fn finalize_sweep(report: &Report) -> usize {
             }
         }
     }
+    // the child is begun while its parent is still tracked, finalization prunes the parent, and only
+    // then the child executes: its seed was fixed when it began
+    for known_mask in 0..8u32 {
+        for f in 2..=4u64 {
+            for p in 0..3usize {
+                for child_txs in [0usize, 1] {
+                    cases += 1;
+                    let (tx, mut rx) = mpsc::channel(64);
+                    let mut eng = DummyExecution::new(tx);
+                    let ids: Vec<BlockId> = (0..3).map(|i| (Slot::new(i as u64 + 1), bh(&format!("fin-{i}")))).collect();
+                    let inprog = |i: usize| if known_mask >> i & 1 == 1 { InProgressBlock::Known(ids[i].clone()) } else { InProgressBlock::Pending(ids[i].0) };
+                    let mut expected: Vec<Hash> = Vec::new();
+                    for i in 0..3 {
+                        let parent = if i == 0 { None } else { Some(ids[i - 1].clone()) };
+                        let seed = if i == 0 { as_hash(&alpenglow::crypto::merkle::GENESIS_BLOCK_HASH) } else { expected[i - 1].clone() };
+                        expected.push(fold(&seed, &txs[i]));
+                        eng.begin_block(inprog(i), parent);
+                        eng.execute_transactions(inprog(i), txs[i].iter().cloned().map(Transaction).collect());
+                        eng.end_block(ids[i].clone());
+                    }
+                    while rx.try_recv().is_ok() {}
+                    let child: BlockId = (Slot::new(5), bh("fin-child-early"));
+                    let cin = InProgressBlock::Pending(child.0);
+                    eng.begin_block(cin.clone(), Some(ids[p].clone()));
+                    let fin_id: BlockId = if f <= 3 { ids[f as usize - 1].clone() } else { (Slot::new(4), bh("fin-3")) };
+                    eng.finalize(fin_id);
+                    let ctx: Vec<Vec<u8>> = (0..child_txs).map(|_| vec![b'c']).collect();
+                    if child_txs > 0 {
+                        eng.execute_transactions(cin, ctx.iter().cloned().map(Transaction).collect());
+                    }
+                    eng.end_block(child.clone());
+                    let want: StateCommitment = fold(&expected[p], &ctx).into();
+                    let ok = matches!(rx.try_recv(), Ok(ExecutionEvent::BlockExecuted { result: Ok(r), .. }) if r.state_commitment == want && r.tx_count == child_txs);
+                    if !ok {
+                        report.violation(
+                            "C20:commitment-depends-on-when-finalization-happens".to_string(),
+                            format!("a child begun on the tracked block of slot {} ({} transactions), slot {f} finalized before the child executed: the reported commitment is not the fold of the parent's commitment over the child's transactions", p + 1, child_txs),
+                            json!({"oracle": "finalize-sweep", "tracked_by_full_id_mask": known_mask, "finalized_slot": f, "child_parent": p, "finalize_between_begin_and_execute": true}),
+                        );
+                    }
+                }
+            }
+        }
+    }
     cases
 }
 
